@@ -102,6 +102,40 @@ class FragHarness(Harness):
             return 'ERR'
         return self.cuts_of(res.f[0], frags)
 
+    def kernel_witness(self, nat):
+        """a kernel-mode (abstract pre-state) counterexample has no concrete input of its own.  To turn it into a
+        replayable violation, a small fixed family of concrete fragment lists -- longer than the bounded spaces
+        reach -- is run natively under the same oracle; a failing member is reported (and replayed like any other
+        counterexample).  Nothing is claimed from this family when it passes: the kernel result then stays
+        INCONCLUSIVE."""
+        out = []
+        for algo in ('F', 'O'):
+            found = None
+            for n in list(range(1, 14)) + [16, 17, 33, 64]:
+                for fr in ([1, 1, 0], [2, 0, 0], [1, 1, 1], [0, 0, 0], [3, 1, 2]):
+                    for lws in ([1], [3], [7], [2 * n + 1], [0], [], [1, 5], [5, 1, 3]):
+                        cfg = {'algo': algo, 'num': 'int', 'n': n, 'nlw': len(lws), 'level': 'frag', 'feat': 'full'}
+                        inp = {'frags': [list(fr) for _ in range(n)], 'lws': list(lws)}
+                        st, res = self.native(nat, cfg, inp)
+                        if st != 'OK':
+                            continue
+                        CI = ConcreteChecker()
+                        try:
+                            self.oracle(CI, cfg, inp, res)
+                        except Infeasible:
+                            pass
+                        if CI.failed:
+                            found = {'property': self.prop, 'clause': CI.failed[0][0], 'msg': CI.failed[0][1], 'cfg': cfg,
+                                     'inputs': norm(inp)}
+                            break
+                    if found:
+                        break
+                if found:
+                    break
+            if found:
+                out.append(found)
+        return out
+
     def partition_oracle(self, I, n, cuts):
         if not I.check(cuts != 'ERR', 'no-overflow-error', 'optimal-fit returned OverflowError'):
             return False
